@@ -63,6 +63,12 @@ def run(tier: str, seed: int) -> int:
             opbase = op.replace("[lstsq]", "").replace("[solve_triu]", "")
             key = f"impl:{opbase}:{'singularS' if singular else 'regularS'}:{inst['kind']}" if op.startswith("revert") else f"impl:{inst['kind']}:{opbase}"
             rep.violation(key, f"{inst['kind']} instance #{j} (n={inst['n']},m={inst['m']},d={inst['d']}): {op}: {detail[:400]}", {"instance": _ser(inst), "op": op, "detail": detail})
+        # extreme (power-of-two) preconditioner gauges: scalings of 1e-12 .. 1e12 that the rationals cannot hold
+        if not singular and j % 3 == 0:
+            for alpha in (2.0**-40, 2.0**40):
+                for op, detail in gauss.check_gauged(inst, res[j], alpha):
+                    rep.violation(f"impl:{inst['kind']}:{op.replace('[lstsq]', '').replace('[solve_triu]', '')}",
+                                  f"{inst['kind']} instance #{j} (n={inst['n']},m={inst['m']},d={inst['d']}): {op}: {detail}", {"instance": _ser(inst), "op": op})
         groups.setdefault((inst["kind"], inst["n"], inst["m"], inst["k"], inst["d"]), []).append(j)
     # batched (vmapped) variants on same-shaped groups
     nb = 0
